@@ -18,13 +18,10 @@
      the argument width plus the extension (what the constructor computes);
      stage 4: Select Store ArrayValue and Equals on arrays (proofs/SimplifierSemArr_proofs.v).
      Array VALUES of the fragment are in the canonical form of the constructor Array() and of the
-     model ([arr_node_ok]): the index sort is not an array sort and not Real, the element sort
-     (the sort of the default) is not Real, the indices are constants of Bool / Int / BV / String
-     sort, strictly increasing in the model's order of index constants (Ctors.const_key; the
-     implementation keeps a dict, the model and the harness keep this order), and no assigned
-     value is syntactically the default.  (Real is excluded because the rules compare index
-     constants syntactically, which is right only for Real constants in lowest terms, and
-     [in_frag] does not ask that of Real constants.)  walk_equals decides the equality of two
+     model ([arr_node_ok]): the index sort is not an array sort, the indices are constants of
+     Bool / Int / Real / BV / String sort, strictly increasing in the model's order of index
+     constants (Ctors.const_key; the implementation keeps a dict, the model and the harness keep
+     this order), and no assigned value is syntactically the default.  walk_equals decides the equality of two
      constant array values extensionally (const_eqb_sound): over Bool / BV(w) two values whose
      assigned indices cover the sort are equal whatever their defaults - core/Sem.v's array
      values are canonical outside their index sort, so this is Leibniz equality there too (a
@@ -38,9 +35,11 @@
      digits per long division, Sem.v one digit at a time; both are the decimal digits).
    Every operator of the term language is now in the fragment; what [in_frag] leaves out: Pow
    with a negative, non-integer or non-constant exponent, and array values outside the canonical
-   form above.
+   form above (array-sorted indices, non-constant / unsorted / duplicate indices, a value that is
+   syntactically the default).
    [in_frag] also asks what the constructors guarantee and tc does not check: arities, BV
-   constants in range with positive width, Real constants with positive denominator, and that
+   constants in range with positive width, Real constants with positive denominator IN LOWEST
+   TERMS (Real() makes a Fraction; lowest_terms_inj: such constants denote different reals), and that
    the sorts of symbols, bound variables and function results are inhabited first-order sorts
    ([inhb]: positive widths, no function sort inside) - the hypothesis used by the rules that
    drop unused quantified variables.
@@ -105,3 +104,29 @@ Print Assumptions C01_simplify_no_new_symbols.
 Print Assumptions C01_simplify_total_no_new_symbols.
 Print Assumptions C01_simplify_idempotent_on_constants.
 Print Assumptions C01_simplify_const_args_fold.
+
+(* ---- the case analysis of the model is the dispatch of the source (gen/Operators.v and gen/Dispatch.v are
+   REGENERATED from pysmt/operators.py and the walker classes on every run; qualified names only) *)
+From PySMT.gen Require Operators Dispatch.
+From PySMT.proofs Require Operators_proofs Dispatch_common Dispatch_simplifier_proofs.
+Theorem C01_operator_table_matches_source :
+  (forall n, List.In n Operators.all_node_types) /\
+  (forall a b, Operators.nt_id a = Operators.nt_id b -> a = b) /\
+  (forall o, Operators.nt_modelled (Operators.nt_of_op o) = true) /\
+  (forall n, Operators.nt_modelled n = false <-> n = Operators.NT_ALGEBRAIC_CONSTANT).
+Proof.
+  exact (conj Operators_proofs.all_node_types_complete (conj Operators_proofs.nt_id_injective
+         (conj Operators_proofs.nt_of_op_modelled Operators_proofs.only_algebraic_constant_unmodelled))).
+Qed.
+
+Theorem C01_simplifier_dispatch_matches_source :
+  (forall n, Dispatch.simplifier_dispatch n =
+             if (Operators.nt_eqb n Operators.NT_SYMBOL || Operators.nt_in Operators.G_CONSTANTS n)%bool
+             then "walk_identity"%string else Dispatch_common.default_handler n) /\
+  (forall ora o args, Dispatch.simplifier_dispatch (Operators.nt_of_op o) = "walk_identity"%string ->
+                      rule ora o args = Some (T o args)).
+Proof.
+  exact (conj Dispatch_simplifier_proofs.simplifier_dispatch_matches_source
+              Dispatch_simplifier_proofs.walk_identity_is_the_leaf_arm).
+Qed.
+Print Assumptions C01_simplifier_dispatch_matches_source.
